@@ -151,6 +151,13 @@ func (c *Checker) allFixed() []*fixedKernel {
 			out = append(out, c.analyseFixed(s, d))
 		}
 	}
+	// named element types (type Sample int16 ...): the kernels must behave as for the underlying type
+	named := append(namedSigned(), namedUnsigned()...)
+	for _, s := range named {
+		for _, d := range named {
+			out = append(out, c.analyseFixed(s, d))
+		}
+	}
 	return out
 }
 
